@@ -248,6 +248,7 @@ def design_run_from(name, scns, invariants=(), workers=16, timeout=3600):
     for sub in s["subs"]:
       sub.setdefault("tbuf", [0] * len(sub["trole"]))
       sub.setdefault("tsh", [[0, 0]] * len(sub["trole"]))
+      sub.setdefault("sigrev", False)
   with open(path, "w") as f:
     json.dump(clean, f)
   c = configs.cfg(1, ["FC"], [configs.NOQ], [configs.NOQ], [configs.NOQ])
@@ -276,6 +277,7 @@ def validate_traces(name, results, workers=16, timeout=3600):
     for sub in clean["subs"]:
       sub.setdefault("tbuf", [0] * len(sub["trole"]))
       sub.setdefault("tsh", [[0, 0]] * len(sub["trole"]))
+      sub.setdefault("sigrev", False)
     scns.append(clean)
     traces.append(results[i]["events"])
   sp, tp = os.path.join(tlc.WORK, name + "_scns.json"), os.path.join(tlc.WORK, name + "_traces.json")
